@@ -13,6 +13,8 @@ import (
 	"github.com/DemoHn/Zn/pkg/value"
 	libFile "github.com/DemoHn/Zn/stdlib/file"
 	libJson "github.com/DemoHn/Zn/stdlib/json"
+	"github.com/DemoHn/Zn/pkg/syntax"
+	"github.com/DemoHn/Zn/pkg/syntax/zh"
 )
 
 // RealErr classifies an error of the real interpreter structurally.
@@ -108,6 +110,41 @@ func RunReal(src string, inputs map[string]r.Element) (o Outcome) {
 	}
 	in := exec.NewInterpreter("verif").SetExternalLibs(Libs())
 	v, err := in.LoadScript([]rune(src)).Execute(inputs)
+	o.fill(v, err)
+	return
+}
+
+// RunRealVM executes a script with the same steps as Interpreter.Execute spelled
+// out through exported calls, so that the VM can be inspected afterwards.
+func RunRealVM(src string, inputs map[string]r.Element) (o Outcome, vm *r.VM) {
+	traceBuf = nil
+	traceOn = true
+	defer func() {
+		traceOn = false
+		o.Trace = traceBuf
+		if p := recover(); p != nil {
+			o.Panic = fmt.Sprint(p)
+			o.Stack = stack()
+		}
+	}()
+	if inputs == nil {
+		inputs = r.ElementMap{}
+	}
+	parser := syntax.NewParser([]rune(src), zh.NewParserZH())
+	program, err := parser.Compile()
+	if err != nil {
+		o.fill(nil, err)
+		return
+	}
+	vm = r.InitVM(exec.GlobalValues)
+	vm.SetModuleCodeFinder(func(isMain bool, info r.LibNameInfo) ([]rune, error) {
+		if info.LibType == r.LIB_TYPE_STD {
+			return []rune{}, nil
+		}
+		return nil, fmt.Errorf("no modules in script mode")
+	})
+	vm.LoadExternalLibs(Libs())
+	v, err := exec.EvalMainModule(vm, program, inputs)
 	o.fill(v, err)
 	return
 }
